@@ -2,5 +2,606 @@
 import KB.Props.C02Store
 import KB.Props.C01
 import KB.Props.C04
+import KB.Lemmas.Retry
 namespace KB
+open Generated SysStore
+
+/-! ### running a fresh request: `begin` and the first steps, on an arbitrary state -/
+
+theorem act_step_of (g : G) (id : Nat) (f : Fault) (c : Client) (h : g.client id = some c) :
+    act g (.step id f) = stepClient g c f := by simp [act, h]
+
+theorem act_begin_free (g : G) (id : Nat) (kind : ReqKind) (hfree : g.client id = none) :
+    act g (.begin id kind) =
+      { g with clients := g.clients ++ [{ id := id, kind := kind, pc := .start, beginDealt := g.dealt }] } := by
+  simp [act, hfree]
+
+theorem client_snoc_free (g : G) (c : Client) (hfree : g.client c.id = none) :
+    G.client { g with clients := g.clients ++ [c] } c.id = some c := by
+  unfold G.client at *
+  simp [List.find?_append, hfree]
+
+theorem filter_free (g : G) (id : Nat) (hfree : g.client id = none) (c : Client) (hc : c.id = id) :
+    (g.clients ++ [c]).filter (fun x => x.id != id) = g.clients := by
+  unfold G.client at hfree
+  rw [List.find?_eq_none] at hfree
+  rw [List.filter_append]
+  have : [c].filter (fun x => x.id != id) = [] := by simp [hc]
+  rw [this, List.append_nil, List.filter_eq_self]
+  intro x hx
+  have := hfree x hx
+  simpa using this
+
+theorem map_free (g : G) (id : Nat) (hfree : g.client id = none) (c c' : Client) (hc : c.id = id) :
+    (g.clients ++ [c]).map (fun x => if x.id == id then c' else x) = g.clients ++ [c'] := by
+  unfold G.client at hfree
+  rw [List.find?_eq_none] at hfree
+  rw [List.map_append]
+  congr 1
+  · conv => rhs; rw [← List.map_id g.clients]
+    apply List.map_congr_left
+    intro x hx
+    have := hfree x hx
+    simp only [Bool.not_eq_true] at this
+    simp [this]
+  · simp [hc]
+
+theorem notify_pos (g : G) (w : WEvent) (h : w.rev ≠ 0) : g.notify w = { g with slots := g.slots ++ [w] } := by
+  simp [G.notify, h]
+
+/-- A guarded update whose expected revision lies beyond the revision it is dealt: rejected in its first
+step, the revision reported (invalid) to the sequencer. -/
+theorem run_update_drift (g : G) (id : Nat) (k v : Bytes) (exp : Nat)
+    (hfree : g.client id = none) (hexp : g.dealt + 1 < exp) :
+    run g [.begin id (.update k v exp), .step id .none] =
+      { g with dealt := g.dealt + 1, slots := g.slots ++ [mkW (g.dealt + 1) exp false .put k v],
+               done := g.done ++ [{ id := id, kind := .update k v exp, res := .error .drift, rev := g.dealt + 1,
+                                    beginDealt := g.dealt, endDealt := g.dealt + 1 }] } := by
+  show act (act g (.begin id (.update k v exp))) (.step id .none) = _
+  rw [act_begin_free g id _ hfree, act_step_of _ id _ _ (client_snoc_free g _ hfree)]
+  have e0 : (exp == 0) = false := by simp; omega
+  simp only [stepClient, e0, hexp, if_true, Bool.false_eq_true, if_false]
+  rw [notify_pos _ _ (by simp [mkW])]
+  simp only [G.finish]
+  rw [filter_free g id hfree _ rfl]
+
+/-- Same for a guarded delete of an existing key (read, then deal, then reject). -/
+theorem run_delete_drift (g : G) (id : Nat) (k : Bytes) (exp : Nat)
+    (hfree : g.client id = none) (hexp : g.dealt + 1 < exp) (v : Bytes) (m : Nat)
+    (hfound : bget g.cfg g.store k 0 = .found v m) :
+    run g [.begin id (.delete k exp), .step id .none, .step id .none] =
+      { g with dealt := g.dealt + 1, slots := g.slots ++ [mkW (g.dealt + 1) m false .delete k v],
+               done := g.done ++ [{ id := id, kind := .delete k exp, res := .error .drift, rev := g.dealt + 1,
+                                    beginDealt := g.dealt, endDealt := g.dealt + 1 }] } := by
+  show act (act (act g (.begin id (.delete k exp))) (.step id .none)) (.step id .none) = _
+  rw [act_begin_free g id _ hfree]
+  rw [act_step_of { g with clients := g.clients ++ [{ id := id, kind := .delete k exp, pc := .start, beginDealt := g.dealt }] }
+    id .none _ (client_snoc_free g _ hfree)]
+  simp only [stepClient, hfound, G.setClient]
+  rw [map_free g id hfree _ _ rfl]
+  rw [act_step_of _ id _ _ (client_snoc_free g
+    { id := id, kind := .delete k exp, pc := .deleteDeal (some (v, m)), beginDealt := g.dealt } hfree)]
+  have e0 : (decide (exp > 0) && decide (g.dealt + 1 < exp)) = true := by simp; omega
+  simp only [stepClient, e0, if_true]
+  rw [notify_pos _ _ (by simp [mkW])]
+  simp only [G.finish]
+  rw [filter_free g id hfree _ rfl]
+
+/-- A create of a key without index record, run without faults: succeeds at the next revision. -/
+theorem run_create_fresh (g : G) (id : Nat) (k v : Bytes) (hfree : g.client id = none)
+    (hfresh : g.store.get (idxKey k) = none) :
+    run g [.begin id (.create k v), .step id .none, .step id .none] =
+      { g with dealt := g.dealt + 1,
+               store := (g.store.put (idxKey k) (be8 (g.dealt + 1))).put (encode k (g.dealt + 1)) v,
+               slots := g.slots ++ [mkW (g.dealt + 1) 0 true .create k v false],
+               hist := g.hist ++ [{ key := k, rev := g.dealt + 1, val := some v }],
+               wlog := g.wlog ++ [{ key := k, rev := g.dealt + 1, val := some v, exp := .absent }],
+               done := g.done ++ [{ id := id, kind := .create k v, res := .ok (g.dealt + 1), rev := g.dealt + 1,
+                                    beginDealt := g.dealt, endDealt := g.dealt + 1 }] } := by
+  show act (act (act g (.begin id (.create k v))) (.step id .none)) (.step id .none) = _
+  rw [act_begin_free g id _ hfree]
+  rw [act_step_of { g with clients := g.clients ++ [{ id := id, kind := .create k v, pc := .start, beginDealt := g.dealt }] }
+    id .none _ (client_snoc_free g _ hfree)]
+  simp only [stepClient, G.setClient]
+  rw [map_free g id hfree _ _ rfl]
+  rw [act_step_of _ id _ _ (client_snoc_free { g with dealt := g.dealt + 1 }
+    { id := id, kind := .create k v, pc := .createCommit (g.dealt + 1), beginDealt := g.dealt } hfree)]
+  simp only [stepClient, createOps, doCommit, commit, applyOps, applyOp, hfresh, applied, G.logWrite, finishCreate,
+    beq_self_eq_true, Bool.true_or, if_true]
+  rw [notify_pos _ _ (by simp [mkW])]
+  simp only [G.finish]
+  rw [filter_free g id hfree _ rfl]
+  simp [mkW]
+
+/-! ### the sequencer touches neither the store nor the log of finished requests -/
+
+theorem stepSeq_frame (g : G) : (stepSeq g).store = g.store ∧ (stepSeq g).cfg = g.cfg ∧ (stepSeq g).done = g.done := by
+  unfold stepSeq
+  split <;> exact ⟨rfl, rfl, rfl⟩
+
+theorem run_seq_frame (n : Nat) (g : G) :
+    (run g (List.replicate n Action.seq)).store = g.store ∧ (run g (List.replicate n Action.seq)).cfg = g.cfg ∧
+    (run g (List.replicate n Action.seq)).done = g.done := by
+  induction n generalizing g with
+  | zero => exact ⟨rfl, rfl, rfl⟩
+  | succ n ih =>
+    obtain ⟨a, b, c⟩ := ih (stepSeq g)
+    obtain ⟨a', b', c'⟩ := stepSeq_frame g
+    simp only [List.replicate_succ, run, List.foldl_cons, act] at a b c ⊢
+    exact ⟨a.trans a', b.trans b', c.trans c'⟩
+
+theorem Reachable.run {g0 g : G} (hr : Reachable g0 g) (s : List Action) : Reachable g0 (run g s) := by
+  obtain ⟨s0, rfl⟩ := hr
+  exact ⟨s0 ++ s, run_append ..⟩
+
+/-! ### the engine store stays sorted -/
+
+theorem applyOp_sorted {q : Quirks} {s s' : Store} {i : Nat} {op : BOp} (hs : s.Sorted)
+    (h : applyOp q s i op = .ok s') : s'.Sorted := by
+  cases op with
+  | pine k v =>
+    simp only [applyOp] at h
+    split at h
+    · cases h
+    · cases h; exact Store.put_sorted _ hs _ _
+  | cas k new old =>
+    simp only [applyOp] at h
+    split at h
+    · split at h <;> cases h
+    · split at h
+      · cases h; exact Store.put_sorted _ hs _ _
+      · cases h
+  | put k v => simp only [applyOp] at h; cases h; exact Store.put_sorted _ hs _ _
+  | del k => simp only [applyOp] at h; cases h; exact Store.erase_sorted _ hs _
+  | delcur k v =>
+    simp only [applyOp] at h
+    split at h
+    · cases h
+    · split at h
+      · cases h; exact Store.erase_sorted _ hs _
+      · cases h
+
+theorem applyOps_sorted {q : Quirks} {s s' : Store} {i : Nat} {ops : List BOp} (hs : s.Sorted)
+    (h : applyOps q s i ops = .ok s') : s'.Sorted := by
+  induction ops generalizing s i with
+  | nil => simp only [applyOps] at h; cases h; exact hs
+  | cons op ops ih =>
+    simp only [applyOps] at h
+    split at h
+    · cases h
+    · rename_i s1 h1
+      exact ih (applyOp_sorted hs h1) h
+
+theorem doCommit_sorted (c : Cfg) {s : Store} (ops : List BOp) (f : Fault) (hs : s.Sorted) :
+    (doCommit c s ops f).2.Sorted := by
+  unfold doCommit
+  split
+  · exact hs
+  · exact hs
+  · rename_i st' hc
+    have := applyOps_sorted hs hc
+    cases f <;> assumption
+
+theorem doCommit_sorted' {c : Cfg} {s st : Store} {ops : List BOp} {f : Fault} {r : CommitRes} (hs : s.Sorted)
+    (h : doCommit c s ops f = (r, st)) : st.Sorted := by
+  have := doCommit_sorted c ops f hs
+  rw [h] at this
+  exact this
+
+@[simp] theorem afterCommit_store (g : G) (r : CommitRes) (st : Store) (f : Fault) (key : Bytes) (rev : Nat)
+    (val : Option Bytes) (exp : Expect) : (afterCommit g r st f key rev val exp).store = st := by
+  unfold SysStore.afterCommit; split <;> rfl
+
+theorem stepClient_sorted (g : G) (c : Client) (f : Fault) (hs : g.store.Sorted) : (stepClient g c f).store.Sorted := by
+  apply stepClient_cases (P := fun g' => g'.store.Sorted)
+  · intros; exact hs
+  · intros; split
+    · exact hs
+    · split
+      · simpa using hs
+      · exact hs
+  · intro rev key val r st _ hdc
+    have h := doCommit_sorted' hs hdc
+    split
+    · split
+      · rw [(createSawIndex_store_wlog ..).1]; simpa using h
+      · simpa using h
+    · rw [(finishCreate_store_wlog ..).1]; simpa using h
+  · intro rev key val _
+    split
+    · rw [(createSawIndex_store_wlog ..).1]; exact hs
+    · exact hs
+  · intro rev key val r st _ hdc
+    rw [(finishCreate_store_wlog ..).1]; simpa using doCommit_sorted' hs hdc
+  · intro rev old key val r st _ hdc
+    rw [(finishCreate_store_wlog ..).1]; simpa using doCommit_sorted' hs hdc
+  · intro rev key val exp r st _ _ hdc
+    have h := doCommit_sorted' hs hdc
+    split <;> simpa using h
+  · intros; split <;> exact hs
+  · intros; simpa using hs
+  · intros
+    split
+    · simpa using hs
+    · split
+      · simpa using hs
+      · split
+        · simpa using hs
+        · exact hs
+  · intro rev oldVal modRev key exp r st _ _ hdc
+    have h := doCommit_sorted' hs hdc
+    split <;> simpa using h
+  · intros; split <;> exact hs
+  · exact hs
+
+theorem stepRetry_sorted (g : G) (f : Fault) (hs : g.store.Sorted) : (stepRetry g f).store.Sorted := by
+  apply stepRetry_cases (P := fun g' => g'.store.Sorted)
+  · exact hs
+  · intro _; exact hs
+  · intro w rest q val r st _ _ hdc
+    simpa using doCommit_sorted' hs hdc
+
+theorem act_sorted (g : G) (a : Action) (hs : g.store.Sorted) : (act g a).store.Sorted := by
+  cases a with
+  | begin id kind => unfold act; simp only []; split <;> exact hs
+  | step id f =>
+    unfold act; simp only []; split
+    · exact hs
+    · exact stepClient_sorted _ _ _ hs
+  | seq => rw [show act g .seq = stepSeq g from rfl, (stepSeq_frame g).1]; exact hs
+  | retry f => exact stepRetry_sorted g f hs
+
+theorem run_sorted (g : G) (s : List Action) (hs : g.store.Sorted) : (run g s).store.Sorted := by
+  induction s generalizing g with
+  | nil => exact hs
+  | cons a s ih => exact ih (act g a) (act_sorted g a hs)
+
+theorem encodeStore_sorted' {recs : List Rec} (hs : SortedRecs recs)
+    (hk : ∀ r ∈ recs, Alphabet r.key ∧ r.rev < 2 ^ 64) : (encodeStore recs).Sorted := by
+  rw [Store.sorted_iff_pairwise, encodeStore, List.pairwise_map]
+  refine List.Pairwise.imp_of_mem ?_ hs
+  intro a b ha hb hlt
+  show cmp (encode a.key a.rev) (encode b.key b.rev) = .lt
+  rw [encode_cmp (hk a ha).1 (hk b hb).1 (hk a ha).2 (hk b hb).2]
+  rcases hlt with h | ⟨h1, h2⟩
+  · have : a.key ≠ b.key := by intro e; rw [e] at h; simp at h
+    simp [this, h]
+  · simp [h1, Nat.compare_eq_lt.mpr h2]
+
+theorem storeOK_sorted {g0 : G} (hs : C02.StoreOK g0) : g0.store.Sorted := by
+  obtain ⟨recs, hst, hsr, hrecs, hb⟩ := hs
+  rw [hst]
+  refine encodeStore_sorted' hsr (fun r hr => ⟨(hrecs r hr).1, ?_⟩)
+  have := (hrecs r hr).2.1
+  omega
+
+theorem reachable_sorted {g0 g : G} (hs : C02.StoreOK g0) (hr : Reachable g0 g) : g.store.Sorted := by
+  obtain ⟨s, rfl⟩ := hr
+  exact run_sorted g0 s (storeOK_sorted hs)
+
+/-! ### the point read returns the newest version of the key -/
+
+/-- On a sorted store of encoded alphabet keys, none above revision `R`, the point read of `k` returns
+the version stored at `R`. -/
+theorem getInternal_top (cfg : Cfg) {store : Store} (hs : store.Sorted) {R : Nat}
+    (hk : ∀ kv ∈ store, ∃ k r, kv.1 = encode k r ∧ Alphabet k ∧ r ≤ R)
+    (h0 : 0 < R) (hb : R < 2 ^ 64) {k : Bytes} (hka : Alphabet k)
+    {v : Bytes} (hget : store.get (encode k R) = some v) :
+    getInternal cfg store k 0 = some (v, R) := by
+  obtain ⟨recs, hst, hsr, hall⟩ := exists_recs store hs (fun kv hkv => by
+    obtain ⟨k, r, h1, h2, h3⟩ := hk kv hkv
+    exact ⟨k, r, h1, h2, by omega⟩)
+  rw [hst, C03.get_spec cfg hsr hall k hka 0 (by decide)]
+  simp only [beq_self_eq_true, if_true]
+  have hm : (encode k R, v) ∈ encodeStore recs := by rw [← hst]; exact Store.mem_of_get hget
+  obtain ⟨rs, hrs, e⟩ := List.mem_map.mp hm
+  simp only [Prod.mk.injEq] at e
+  obtain ⟨e1, e2⟩ := encode_inj (hall rs hrs).2 hb e.1
+  have hvis : vis (2 ^ 64 - 1) k rs = true := vis_iff.mpr ⟨e1, by omega, by omega⟩
+  have hmf : rs ∈ recs.filter (vis (2 ^ 64 - 1) k) := List.mem_filter.mpr ⟨hrs, hvis⟩
+  rw [visible_def]
+  cases hlast : (recs.filter (vis (2 ^ 64 - 1) k)).getLast? with
+  | none =>
+    rw [List.getLast?_eq_none_iff] at hlast
+    rw [hlast] at hmf; cases hmf
+  | some l =>
+    have hlm := List.mem_filter.mp (List.mem_of_getLast? hlast)
+    obtain ⟨hlk, hl0, _⟩ := vis_iff.mp hlm.2
+    have hle : l.rev ≤ R := by
+      have hm' : (encode l.key l.rev, l.val) ∈ store := by rw [hst]; exact List.mem_map.mpr ⟨l, hlm.1, rfl⟩
+      obtain ⟨k', r', h1, _, h3⟩ := hk _ hm'
+      obtain ⟨_, e4⟩ := encode_inj (hall l hlm.1).2 (by omega) h1
+      omega
+    have : rs = l := by
+      rcases pairwise_getLast (List.Pairwise.filter _ hsr) hlast hmf with h | h
+      · exact h
+      · exfalso
+        rcases h with h | ⟨_, h⟩
+        · rw [e1, hlk] at h; simp at h
+        · omega
+    subst this
+    simp [e2, e.2]
+
+/-! ### a create + read of a fresh key after an arbitrary reachable quiescent state -/
+
+theorem probe_serves {g0 g : G} (h0 : C02.Init g0) (hs : C02.StoreOK g0) (hr : Reachable g0 g)
+    (hq : g.clients = []) (hb : g.dealt + 1 < 2 ^ 64)
+    (hal : ∀ kv ∈ g.store, ∃ k' r, kv.1 = encode k' r ∧ Alphabet k')
+    (id : Nat) (k v : Bytes) (hk : Alphabet k) (hv : v ≠ tombstone)
+    (hfresh : g.store.get (idxKey k) = none) :
+    let g1 := run g ([.begin id (.create k v), .step id .none, .step id .none] ++
+                      List.replicate (g.dealt + 1 - g.committed) Action.seq)
+    (∃ d ∈ g1.done, d.id = id ∧ d.res = .ok (g.dealt + 1)) ∧ g1.committed = g.dealt + 1 ∧
+    bget g1.cfg g1.store k 0 = .found v (g.dealt + 1) := by
+  intro g1
+  have hfree : g.client id = none := by simp [G.client, hq]
+  have e3 := run_create_fresh g id k v hfree hfresh
+  generalize hg3 : run g [.begin id (.create k v), .step id .none, .step id .none] = g3 at e3
+  have hg1 : g1 = run g3 (List.replicate (g.dealt + 1 - g.committed) Action.seq) := by
+    show run g _ = _
+    rw [run_append, hg3]
+  have hr3 : Reachable g0 g3 := hg3 ▸ hr.run _
+  have hd3 : g3.dealt = g.dealt + 1 := by rw [e3]
+  have hc3 : g3.committed = g.committed := by rw [e3]
+  have hcl3 : g3.clients = [] := by rw [e3]; exact hq
+  have hst3 : g3.store = (g.store.put (idxKey k) (be8 (g.dealt + 1))).put (encode k (g.dealt + 1)) v := by rw [e3]
+  have hcfg3 : g3.cfg = g.cfg := by rw [e3]
+  have hcatch := C04.quiescent_catches_up h0.1 hr3 (fun c hc => by rw [hcl3] at hc; cases hc)
+  rw [hd3, hc3, ← hg1] at hcatch
+  obtain ⟨fs, fc, fd⟩ := run_seq_frame (g.dealt + 1 - g.committed) g3
+  rw [← hg1] at fs fc fd
+  refine ⟨?_, hcatch, ?_⟩
+  · refine ⟨{ id := id, kind := .create k v, res := .ok (g.dealt + 1), rev := g.dealt + 1,
+              beginDealt := g.dealt, endDealt := g.dealt + 1 }, ?_, rfl, rfl⟩
+    rw [fd, e3]
+    exact List.mem_append_right _ (List.mem_singleton.mpr rfl)
+  · rw [fs, fc]
+    have hsorted := reachable_sorted hs hr3
+    have hcore := (SInv.reachable h0 hs hr3).core
+    have hkeys : ∀ kv ∈ g3.store, ∃ k' r, kv.1 = encode k' r ∧ Alphabet k' ∧ r ≤ g.dealt + 1 := by
+      intro kv hkv
+      obtain ⟨k1, r1, h1, h2⟩ := hcore.keys kv hkv
+      rw [hd3] at h2
+      have ha : ∃ k2 r2, kv.1 = encode k2 r2 ∧ Alphabet k2 := by
+        rw [hst3] at hkv
+        rcases Store.mem_put hkv with h | h
+        · exact ⟨k, _, h, hk⟩
+        · rcases Store.mem_put h with h | h
+          · exact ⟨k, 0, h, hk⟩
+          · exact hal kv h
+      obtain ⟨k2, r2, h3, h4⟩ := ha
+      rw [h1, ← encode_mod k2 r2] at h3
+      obtain ⟨e1, _⟩ := encode_inj (by omega) (Nat.mod_lt _ (by decide)) h3
+      exact ⟨k1, r1, h1, e1 ▸ h4, h2⟩
+    have hget : g3.store.get (encode k (g.dealt + 1)) = some v := by
+      rw [hst3, SysStore.Store.get_put]; simp
+    have := getInternal_top g3.cfg hsorted hkeys (by omega) hb hk hget
+    have ht : isTomb v = false := by simpa [isTomb] using hv
+    simp [bget, this, ht]
+
+/-! ### requests over the documented alphabet keep the store over the alphabet -/
+
+/-- every record of the store is the encoding of a key over the alphabet -/
+def StoreAlpha (st : Store) : Prop := ∀ kv ∈ st, ∃ k r, kv.1 = encode k r ∧ Alphabet k
+
+structure AlphaInv (g : G) : Prop where
+  cl : ∀ c ∈ g.clients, Alphabet c.kind.key
+  sl : ∀ s ∈ g.slots, Alphabet s.key
+  rq : ∀ q ∈ g.retryQ, Alphabet q.key
+  st : StoreAlpha g.store
+
+theorem StoreAlpha.wstore {st : Store} (h : StoreAlpha st) {key : Bytes} (hk : Alphabet key) (rev : Nat) (new v : Bytes) :
+    StoreAlpha ((st.put (idxKey key) new).put (encode key rev) v) := by
+  intro kv hkv
+  rcases Store.mem_put hkv with h1 | h1
+  · exact ⟨key, rev, h1, hk⟩
+  · rcases Store.mem_put h1 with h2 | h2
+    · exact ⟨key, 0, h2, hk⟩
+    · exact h kv h2
+
+theorem StoreAlpha.pine {c : Cfg} {s st : Store} {key new v : Bytes} {rev : Nat} {f : Fault} {r : CommitRes}
+    (h : StoreAlpha s) (hk : Alphabet key)
+    (hdc : doCommit c s [.pine (idxKey key) new, .put (encode key rev) v] f = (r, st)) : StoreAlpha st := by
+  rcases doCommit_pine_cases hdc with ⟨_, _, e⟩ | ⟨_, e⟩
+  · rw [e]; exact h.wstore hk rev new v
+  · rw [e]; exact h
+
+theorem StoreAlpha.cas {c : Cfg} {s st : Store} {key new old v : Bytes} {rev : Nat} {f : Fault} {r : CommitRes}
+    (h : StoreAlpha s) (hk : Alphabet key)
+    (hdc : doCommit c s [.cas (idxKey key) new old, .put (encode key rev) v] f = (r, st)) : StoreAlpha st := by
+  rcases doCommit_cas_cases hdc with ⟨_, _, e⟩ | ⟨_, e⟩
+  · rw [e]; exact h.wstore hk rev new v
+  · rw [e]; exact h
+
+theorem AlphaInv.deal {g : G} (h : AlphaInv g) (d : Nat) : AlphaInv { g with dealt := d } :=
+  ⟨h.cl, h.sl, h.rq, h.st⟩
+
+theorem AlphaInv.setClient {g : G} (h : AlphaInv g) (c' : Client) (hc' : Alphabet c'.kind.key) :
+    AlphaInv (g.setClient c') := by
+  refine ⟨?_, h.sl, h.rq, h.st⟩
+  intro x hx
+  simp only [G.setClient, List.mem_map] at hx
+  obtain ⟨y, hy, e⟩ := hx
+  split at e
+  · rw [← e]; exact hc'
+  · rw [← e]; exact h.cl y hy
+
+theorem AlphaInv.finish {g : G} (h : AlphaInv g) (c : Client) (res : WriteRes) (rev : Nat) :
+    AlphaInv (g.finish c res rev) :=
+  ⟨fun x hx => h.cl x (List.mem_filter.mp hx).1, h.sl, h.rq, h.st⟩
+
+theorem AlphaInv.notify {g : G} (h : AlphaInv g) (w : WEvent) (hw : Alphabet w.key) : AlphaInv (g.notify w) := by
+  unfold G.notify
+  split
+  · exact h
+  · refine ⟨h.cl, ?_, h.rq, h.st⟩
+    intro s hs
+    rcases List.mem_append.mp hs with hs | hs
+    · exact h.sl s hs
+    · rw [List.mem_singleton.mp hs]; exact hw
+
+theorem AlphaInv.afterCommit {g : G} (h : AlphaInv g) {st : Store} (hst : StoreAlpha st) (r : CommitRes) (f : Fault)
+    (key : Bytes) (rev : Nat) (val : Option Bytes) (exp : Expect) : AlphaInv (afterCommit g r st f key rev val exp) := by
+  unfold SysStore.afterCommit
+  split
+  · exact ⟨h.cl, h.sl, h.rq, hst⟩
+  · exact ⟨h.cl, h.sl, h.rq, hst⟩
+
+theorem AlphaInv.finishCreate {g : G} (h : AlphaInv g) (c : Client) (hc : Alphabet c.kind.key) {key : Bytes}
+    (hk : Alphabet key) (val : Bytes) (rev : Nat) (r : CommitRes) : AlphaInv (finishCreate g c key val rev r) := by
+  have hn := h.notify (mkW rev 0 (r == .ok) .create key val (r == .uncertain)) hk
+  unfold KB.finishCreate
+  split
+  · exact hn.finish ..
+  · split
+    · exact hn.setClient _ hc
+    · exact hn.finish ..
+  · exact hn.finish ..
+
+theorem AlphaInv.createSawIndex {g : G} (h : AlphaInv g) (c : Client) (hc : Alphabet c.kind.key) {key : Bytes}
+    (hk : Alphabet key) (val : Bytes) (rev : Nat) (old : Bytes) : AlphaInv (createSawIndex g c key val rev old) := by
+  unfold KB.createSawIndex
+  split
+  · exact h.finishCreate c hc hk ..
+  · split
+    · exact h.setClient _ hc
+    · exact h.finishCreate c hc hk ..
+
+theorem AlphaInv.stepClient {g : G} (h : AlphaInv g) {c : Client} (hc : c ∈ g.clients) (f : Fault) :
+    AlphaInv (stepClient g c f) := by
+  have hck := h.cl c hc
+  have hkv : ∀ {key val : Bytes}, c.kind.kv = (key, val) → Alphabet key := by
+    intro key val e
+    have := c.kind.kv_key
+    rw [e] at this
+    simp only at this
+    rw [this]; exact hck
+  apply stepClient_cases' (P := AlphaInv)
+  · intros; exact (h.deal _).setClient _ hck
+  · intro key val exp _ hkind
+    have hkey : Alphabet key := by simpa [hkind, ReqKind.key] using hck
+    split
+    · exact (h.deal _).setClient _ hck
+    · split
+      · exact ((h.deal _).notify _ hkey).finish ..
+      · exact (h.deal _).setClient _ hck
+  · intro rev key val r st _ hk hdc
+    have hkey := hkv hk
+    have ha := h.afterCommit (h.st.pine hkey hdc) r f key rev (some val) .absent
+    split
+    · split
+      · exact ha.createSawIndex c hck hkey ..
+      · exact ha.setClient _ hck
+    · exact ha.finishCreate c hck hkey ..
+  · intro rev key val _ hk
+    have hkey := hkv hk
+    split
+    · exact h.createSawIndex c hck hkey ..
+    · exact h.setClient _ hck
+  · intro rev key val r st _ hk hdc
+    have hkey := hkv hk
+    exact (h.afterCommit (h.st.pine hkey hdc) r f key rev (some val) .absent).finishCreate c hck hkey ..
+  · intro rev old key val r st _ hk hdc
+    have hkey := hkv hk
+    exact (h.afterCommit (h.st.cas hkey hdc) r f key rev (some val) .absent).finishCreate c hck hkey ..
+  · intro rev key val exp r st _ hkind hdc
+    have hkey : Alphabet key := by simpa [hkind, ReqKind.key] using hck
+    have ha := (h.afterCommit (h.st.cas hkey hdc) r f key rev (some val) (.rev exp)).notify
+      (mkW rev exp (r == .ok) .put key val (r == .uncertain)) hkey
+    split
+    · exact ha.finish ..
+    · exact ha.setClient _ hck
+    · exact ha.finish ..
+  · intros; split <;> exact h.setClient _ hck
+  · intro key exp _ hkind
+    have hkey : Alphabet key := by simpa [hkind, ReqKind.key] using hck
+    exact ((h.deal _).notify _ hkey).finish ..
+  · intro oldVal modRev key exp _ hkind
+    have hkey : Alphabet key := by simpa [hkind, ReqKind.key] using hck
+    split
+    · exact ((h.deal _).notify _ hkey).finish ..
+    · split
+      · exact ((h.deal _).notify _ hkey).setClient _ hck
+      · split
+        · exact ((h.deal _).notify _ hkey).finish ..
+        · exact (h.deal _).setClient _ hck
+  · intro rev oldVal modRev key exp r st _ hkind hdc
+    have hkey : Alphabet key := by simpa [hkind, ReqKind.key] using hck
+    have ha := (h.afterCommit (h.st.cas hkey hdc) r f key rev none (.rev modRev)).notify
+      (mkW rev modRev (r == .ok) .delete key oldVal (r == .uncertain)) hkey
+    split
+    · exact ha.finish ..
+    · exact ha.setClient _ hck
+    · exact ha.finish ..
+  · intros; split <;> exact h.finish ..
+  · exact h
+
+theorem AlphaInv.stepSeq {g : G} (h : AlphaInv g) : AlphaInv (stepSeq g) := by
+  unfold KB.stepSeq
+  split
+  · exact h
+  · rename_i w hw
+    have hwm : w ∈ g.slots := List.mem_of_find?_eq_some hw
+    refine ⟨h.cl, fun s hs => h.sl s (List.mem_filter.mp hs).1, ?_, h.st⟩
+    intro q hq
+    simp only at hq
+    split at hq
+    · rcases List.mem_append.mp hq with hq | hq
+      · exact h.rq q hq
+      · rw [List.mem_singleton.mp hq]; exact h.sl w hwm
+    · exact h.rq q hq
+
+theorem AlphaInv.stepRetry {g : G} (h : AlphaInv g) (f : Fault) : AlphaInv (stepRetry g f) := by
+  apply stepRetry_cases' (P := AlphaInv)
+  · intro _; exact h
+  · intro w rest hq _
+    exact ⟨h.cl, h.sl, fun q hqm => h.rq q (by rw [hq]; exact List.mem_cons_of_mem _ hqm), h.st⟩
+  · intro w rest val r st hq _ _ hdc
+    have hw : Alphabet w.key := h.rq w (by rw [hq]; exact List.mem_cons_self ..)
+    have h1 : AlphaInv ({ g with dealt := g.dealt + 1
+                                 retryQ := (if r == CommitRes.ok || r.isCas then rest else w :: rest) } : G) := by
+      refine ⟨h.cl, h.sl, ?_, h.st⟩
+      intro q hqm
+      simp only at hqm
+      split at hqm
+      · exact h.rq q (by rw [hq]; exact List.mem_cons_of_mem _ hqm)
+      · exact h.rq q (by rw [hq]; exact hqm)
+    exact (h1.afterCommit (h.st.cas hw hdc) r f w.key (g.dealt + 1) _ (.rev w.rev)).notify _ hw
+
+/-- a request whose key is over the documented alphabet -/
+def ActAlpha (a : Action) : Prop := ∀ id kind, a = .begin id kind → Alphabet kind.key
+
+theorem AlphaInv.act {g : G} (h : AlphaInv g) (a : Action) (ha : ActAlpha a) : AlphaInv (act g a) := by
+  cases a with
+  | begin id kind =>
+    unfold KB.act; simp only []; split
+    · exact h
+    · refine ⟨?_, h.sl, h.rq, h.st⟩
+      intro c hc
+      rcases List.mem_append.mp hc with hc | hc
+      · exact h.cl c hc
+      · rw [List.mem_singleton.mp hc]; exact ha id kind rfl
+  | step id f =>
+    unfold KB.act; simp only []; split
+    · exact h
+    · rename_i c hc
+      exact h.stepClient (mem_client hc).1 f
+  | seq => exact h.stepSeq
+  | retry f => exact h.stepRetry f
+
+theorem AlphaInv.run {g : G} (h : AlphaInv g) (s : List Action) (hs : ∀ a ∈ s, ActAlpha a) : AlphaInv (run g s) := by
+  induction s generalizing g with
+  | nil => exact h
+  | cons a s ih =>
+    exact ih (h.act a (hs a (List.mem_cons_self ..))) (fun b hb => hs b (List.mem_cons_of_mem _ hb))
+
+theorem AlphaInv.init {g0 : G} (h0 : C02.Init g0) (hs : C02.StoreOK g0) : AlphaInv g0 := by
+  obtain ⟨⟨_, hsl, hcl, hq⟩, _⟩ := h0
+  obtain ⟨recs, hst, _, hrecs, _⟩ := hs
+  refine ⟨by simp [hcl], by simp [hsl], by simp [hq], ?_⟩
+  intro kv hkv
+  rw [hst] at hkv
+  obtain ⟨r, hr, e⟩ := List.mem_map.mp hkv
+  exact ⟨r.key, r.rev, by rw [← e], (hrecs r hr).1⟩
+
 end KB
